@@ -248,13 +248,9 @@ func retTok(err error, pan interface{}) string {
 }
 
 func (r *runner) start() {
-	var pp interface {
-		PostProcess(string, []byte) ([]byte, error)
-	}
 	var va *generator.VerifAsync
 	if r.cfg.HasPP {
-		pp = r
-		va = generator.NewVerifAsync(pp, r.cfg.Conc)
+		va = generator.NewVerifAsync(r, r.cfg.Conc)
 	} else {
 		va = generator.NewVerifAsync(nil, r.cfg.Conc)
 	}
@@ -704,7 +700,6 @@ func runFree(cfg cfgT, jitter *uint64, timeout time.Duration) (*outcome, []strin
 	if !o.Deadlock && runtime.NumGoroutine() > base {
 		o.Leak = true
 	}
-	r.free = false
 	r.draining.Store(true)
 	generator.VerifPoint = nil
 	r.mu.Lock()
